@@ -77,3 +77,141 @@ Example C05_all_types_nonvacuous :
                   SLet "z" (RZip "a" "b"); SLet "u" (RUnzip "z");
                   SLet "o" (RObjectNew [("left", "a"); ("pairs", "z")]) ] = true.
 Proof. eexists. split; vm_compute; reflexivity. Qed.
+
+(* ---------------------------------------------------------------------------------------------
+   Second clause of the property for the WHOLE surface language (Proofs/C05Edges.v).
+   Coherence: at every point of every program — top level, function bodies, nested definitions — every value
+   bound to a name, and every component of a bound n-tuple or object, that carries an operation id is recorded
+   under that id with ITS OWN type ([InvE]); [Inv] is the C11 invariant (fresh ids, function records), which
+   C11_invariant_everywhere establishes at the same points. *)
+From NadaV.Proofs Require Import TraceMono C11Program C12Steps C05Edges.
+
+Theorem C05_values_are_recorded_with_their_types : forall fuel ρ ss s ρ' s',
+  Inv ρ s -> InvE ρ s -> exec GenScalar.G fuel ρ ss s = Ok (ρ', s') -> InvE ρ' s'.
+Proof. exact (exec_coherent GenScalar.G). Qed.
+Print Assumptions C05_values_are_recorded_with_their_types.
+
+Theorem C05_each_step_keeps_values_and_types_together : forall ρ r s w s1,
+  Inv ρ s -> InvE ρ s -> eval_rhs GenScalar.G ρ r s = Ok (w, s1) -> cohd s1 w /\ InvE ρ s1 /\ sub s s1.
+Proof. exact (eval_rhs_coherent GenScalar.G). Qed.
+Print Assumptions C05_each_step_keeps_values_and_types_together.
+
+(* a function body starts in such a state: each parameter is recorded with the type of the value its name is bound to *)
+Theorem C05_function_bodies_start_coherent : forall ρ s params args s1,
+  Inv ρ s -> InvE ρ s -> make_args (counter s + 1) params (after_alloc s) = Ok (args, s1) ->
+  Inv (body_env args ρ) s1 /\ InvE (body_env args ρ) s1.
+Proof. exact body_starts_coherent. Qed.
+Print Assumptions C05_function_bodies_start_coherent.
+
+(* Edges: in any such state, the type recorded for an accepted operation is determined by the types RECORDED for
+   its operands.  [ty_at s id t]: the store holds type t under id;  [recorded_as s id t n]: it holds node n with type t. *)
+Theorem C05_zip_edge : forall ρ s, Inv ρ s -> InvE ρ s -> forall a b w s1,
+  eval_rhs GenScalar.G ρ (RZip a b) s = Ok (w, s1) ->
+  exists l r id tx ty sz,
+    wid w = Some id /\ recorded_as s1 id (TyArray (TyTuple tx ty) sz) (ABinary "Zip" l r)
+    /\ ty_at s1 l (TyArray tx sz) /\ ty_at s1 r (TyArray ty sz).
+Proof. exact (zip_edge GenScalar.G). Qed.
+Print Assumptions C05_zip_edge.
+
+Theorem C05_unzip_edge : forall ρ s, Inv ρ s -> InvE ρ s -> forall a w s1,
+  eval_rhs GenScalar.G ρ (RUnzip a) s = Ok (w, s1) ->
+  exists src id tl tr sz,
+    wid w = Some id /\ recorded_as s1 id (TyTuple (TyArray tl sz) (TyArray tr sz)) (AUnary "Unzip" src)
+    /\ ty_at s1 src (TyArray (TyTuple tl tr) sz).
+Proof. exact (unzip_edge GenScalar.G). Qed.
+Print Assumptions C05_unzip_edge.
+
+Theorem C05_map_edge : forall ρ s, Inv ρ s -> InvE ρ s -> forall a f w s1,
+  eval_rhs GenScalar.G ρ (RMap a f) s = Ok (w, s1) ->
+  exists src fn id te tr sz,
+    wid w = Some id /\ recorded_as s1 id (TyArray tr sz) (AMap src fn)
+    /\ ty_at s1 src (TyArray te sz) /\ ty_at s1 fn tr.
+Proof. exact (map_edge GenScalar.G). Qed.
+Print Assumptions C05_map_edge.
+
+Theorem C05_reduce_edge : forall ρ s, Inv ρ s -> InvE ρ s -> forall a f init w s1,
+  eval_rhs GenScalar.G ρ (RReduce a f init) s = Ok (w, s1) ->
+  exists src fn ini id tr,
+    wid w = Some id /\ recorded_as s1 id tr (AReduce src fn ini) /\ ty_at s1 fn tr.
+Proof. exact (reduce_edge GenScalar.G). Qed.
+Print Assumptions C05_reduce_edge.
+
+Theorem C05_call_edge : forall ρ s, Inv ρ s -> InvE ρ s -> forall f args kwargs w s1,
+  eval_rhs GenScalar.G ρ (RCall f args kwargs) s = Ok (w, s1) ->
+  exists ids fn id tr,
+    wid w = Some id /\ recorded_as s1 id tr (ACall ids fn) /\ ty_at s1 fn tr.
+Proof. exact (call_edge GenScalar.G). Qed.
+Print Assumptions C05_call_edge.
+
+Theorem C05_array_new_edge : forall ρ s, Inv ρ s -> InvE ρ s -> forall es w s1,
+  eval_rhs GenScalar.G ρ (RArrayNew es) s = Ok (w, s1) ->
+  exists ids id t0,
+    wid w = Some id /\ recorded_as s1 id (TyArray t0 (Some (Z.of_nat (List.length ids)))) (ANew "ArrayNew" ids)
+    /\ Forall (fun i => ty_at s1 i t0) ids.
+Proof. exact (array_new_edge GenScalar.G). Qed.
+Print Assumptions C05_array_new_edge.
+
+Theorem C05_tuple_new_edge : forall ρ s, Inv ρ s -> InvE ρ s -> forall a b w s1,
+  eval_rhs GenScalar.G ρ (RTupleNew a b) s = Ok (w, s1) ->
+  exists i1 i2 id t1 t2,
+    wid w = Some id /\ recorded_as s1 id (TyTuple t1 t2) (ANew "TupleNew" [i1; i2])
+    /\ ty_at s1 i1 t1 /\ ty_at s1 i2 t2.
+Proof. exact (tuple_new_edge GenScalar.G). Qed.
+Print Assumptions C05_tuple_new_edge.
+
+Theorem C05_ntuple_new_edge : forall ρ s, Inv ρ s -> InvE ρ s -> forall es w s1,
+  eval_rhs GenScalar.G ρ (RNTupleNew es) s = Ok (w, s1) ->
+  exists ids id ts,
+    wid w = Some id /\ recorded_as s1 id (TyNTuple ts) (ANew "NTupleNew" ids) /\ Forall2 (ty_at s1) ids ts.
+Proof. exact (ntuple_new_edge GenScalar.G). Qed.
+Print Assumptions C05_ntuple_new_edge.
+
+Theorem C05_object_new_edge : forall ρ s, Inv ρ s -> InvE ρ s -> forall fs w s1,
+  eval_rhs GenScalar.G ρ (RObjectNew fs) s = Ok (w, s1) ->
+  exists ids id kts,
+    wid w = Some id /\ recorded_as s1 id (TyObject kts) (ANew "ObjectNew" ids)
+    /\ map fst kts = map fst fs /\ Forall2 (fun i kt => ty_at s1 i (snd kt)) ids kts.
+Proof. exact (object_new_edge GenScalar.G). Qed.
+Print Assumptions C05_object_new_edge.
+
+Theorem C05_index_edge : forall ρ s, Inv ρ s -> InvE ρ s -> forall a i w s1,
+  eval_rhs GenScalar.G ρ (RIndex a i) s = Ok (w, s1) ->
+  exists src ts t,
+    ty_at s1 src (TyNTuple ts) /\ nth_error ts (Z.to_nat i) = Some t /\ (0 <= i < Z.of_nat (List.length ts))%Z
+    /\ ((store s1 = store s /\ to_mir w = Ok t)
+        \/ (wid w = Some (counter s + 1)%Z /\ recorded_as s1 (counter s + 1)%Z t (ANTupleAcc i src))).
+Proof. exact (index_edge GenScalar.G). Qed.
+Print Assumptions C05_index_edge.
+
+Theorem C05_field_edge : forall ρ s, Inv ρ s -> InvE ρ s -> forall a k w s1,
+  eval_rhs GenScalar.G ρ (RField a k) s = Ok (w, s1) ->
+  exists src kts t,
+    ty_at s1 src (TyObject kts) /\ assoc k kts = Some t
+    /\ ((store s1 = store s /\ to_mir w = Ok t)
+        \/ (wid w = Some (counter s + 1)%Z /\ recorded_as s1 (counter s + 1)%Z t (AObjectAcc k src))).
+Proof. exact (field_edge GenScalar.G). Qed.
+Print Assumptions C05_field_edge.
+
+Theorem C05_inner_product_edge : forall ρ s, Inv ρ s -> InvE ρ s -> forall a b w s1,
+  eval_rhs GenScalar.G ρ (RInner a b) s = Ok (w, s1) ->
+  exists l r id tl tr sz,
+    wid w = Some id
+    /\ recorded_as s1 id (TyName (mir_name (mode_max (fst tl) (fst tr), snd tl))) (ABinary "InnerProduct" l r)
+    /\ ty_at s1 l (TyArray (TyName (mir_name tl)) sz) /\ ty_at s1 r (TyArray (TyName (mir_name tr)) sz).
+Proof. exact (inner_product_edge GenScalar.G). Qed.
+Print Assumptions C05_inner_product_edge.
+
+(* the hypotheses are met by the empty program state, hence (by the two invariant theorems) at every point of
+   every program; and the operations above are accepted by concrete programs *)
+Example C05_edges_nonvacuous :
+  Inv [] init_state /\ InvE [] init_state
+  /\ exists ρ s, exec GenScalar.G 20 []
+       [ SLet "a" (RInput "a" "P" "" (IArray (IScalar (MSecret, BInt)) (Some 3)));
+         SLet "b" (RInput "b" "P" "" (IArray (IScalar (MPublic, BInt)) (Some 3)));
+         SLet "z" (RZip "a" "b"); SLet "u" (RUnzip "z"); SLet "p" (RInner "a" "b");
+         SLet "n" (RNTupleNew ["a"; "p"]); SLet "x" (RIndex "n" 1);
+         SLet "o" (RObjectNew [("left", "a"); ("pairs", "z")]); SLet "y" (RField "o" "pairs") ] init_state = Ok (ρ, s).
+Proof.
+  split; [apply Inv_init|]. split; [intros x w H; discriminate H|].
+  eexists. eexists. vm_compute. reflexivity.
+Qed.
